@@ -453,15 +453,19 @@ pub fn run(line: &str) -> String {
                 let ema = t.i64();
                 let conf = t.u64();
                 let ema_conf = t.u64();
-                let od = sim::fixtures::pyth_price_update_v2_bytes([3u8; 32], price, conf, 0, ema, ema_conf, now, 1);
+                // optional trailing token: the age of the Pyth update (published `now - age`, below the 60 s default max age), so
+                // that a venue refreshed AFTER the publication but BEFORE now is exercised; without it: published `now`
+                let age = if t.done() { 0 } else { t.i64() };
+                let od = sim::fixtures::pyth_price_update_v2_bytes([3u8; 32], price, conf, 0, ema, ema_conf, now - age, 1);
                 out.push(guarded(|| {
                     pyth_out(adapter(OracleSetup::DriftPythPull, od, sim::fixtures::PYTH_RECEIVER_ID, &mut words, len, drift_mocks::ID, 1000, now))
                 }));
             } else {
                 let value = t.i128();
                 let std_dev = t.i128();
+                let age = if t.done() { 0 } else { t.i64() };
                 let mut w = sim::World::new();
-                let k = sim::fixtures::mk_switchboard_pull_oracle(&mut w, value, std_dev, now);
+                let k = sim::fixtures::mk_switchboard_pull_oracle(&mut w, value, std_dev, now - age);
                 let od = w.accounts.get(&k).expect("swb account").data.clone();
                 out.push(guarded(|| {
                     swb_out(adapter(OracleSetup::DriftSwitchboardPull, od, sim::fixtures::SWITCHBOARD_PULL_ID, &mut words, len, drift_mocks::ID, 1000, now))
